@@ -20,6 +20,13 @@ func SetScalar(value string) SetFn {
 // When setting only a value on a scalar node, use SetScalar instead.
 func SetEntry(name, value, tag string) SetFn {
 	return func(node *yaml.RNode) error {
+		if name != "" && node.IsTaggedNull() {
+			// A null value is not a map: there is no entry to set. (A field spec
+			// that asks for creation has already turned the null into a map.)
+			// FieldSetter would append the entry to the Content of the scalar
+			// node, where it is invisible until the node is turned into a map.
+			return nil
+		}
 		// a fresh node per invocation: locations set by one SetFn must not share a yaml.Node
 		n := &yaml.Node{
 			Kind:  yaml.ScalarNode,
